@@ -144,9 +144,13 @@ type BlockRecord struct {
 	Finalize   *abci.ResponseFinalizeBlock
 	FinalErr   error
 	AppHash    []byte
+	PrevHash   []byte // app hash after the previous block (= header.AppHash of this block)
 	BeginEvents []abci.Event
 	EndEvents   []abci.Event
 }
+
+// PrevAppHash is the app hash the block header carries (state after the previous block).
+func (b *BlockRecord) PrevAppHash() []byte { return b.PrevHash }
 
 // PanicInfo describes a recovered panic in block processing.
 type PanicInfo struct {
@@ -676,7 +680,7 @@ func (r *Rig) DeliverBlock(dt time.Duration, txs []Tx) *BlockRecord {
 	}
 	h := r.Height + 1
 	t := r.Time.Add(dt)
-	br := &BlockRecord{Height: h, Time: t}
+	br := &BlockRecord{Height: h, Time: t, PrevHash: append([]byte{}, r.LastHash...)}
 	raw := make([][]byte, len(txs))
 	for i, tx := range txs {
 		raw[i] = tx.Bytes
